@@ -459,8 +459,14 @@ Error RACFGBuilder::on_instruction(InstNode* inst, InstControlFlow& cf, RAInstBu
         uint32_t rewrite_mask = Support::bit_mask<uint32_t>(inst->_get_rewrite_index(&inst->extra_reg()._id));
 
         if (group == RegGroup::kMask) {
-          // AVX-512 mask selector {k} register - read-only, allocable to any register except {k0}.
-          ASMJIT_PROPAGATE(ib.add(work_reg, RATiedFlags::kUse | RATiedFlags::kRead, in_out_regs, Reg::kIdBad, rewrite_mask, in_out_regs, Reg::kIdBad, 0));
+          // AVX-512 mask selector {k} register - allocable to any register except {k0}. It's read-only with the exception
+          // of gather and scatter instructions, which clear the mask - the register is modified and must be saved before
+          // it's reassigned.
+          RATiedFlags k_flags = RATiedFlags::kUse | RATiedFlags::kRead;
+          if (rw_info.extra_reg().is_write()) {
+            k_flags |= RATiedFlags::kWrite;
+          }
+          ASMJIT_PROPAGATE(ib.add(work_reg, k_flags, in_out_regs, Reg::kIdBad, rewrite_mask, in_out_regs, Reg::kIdBad, 0));
           single_reg_ops = 0u;
         }
         else {
